@@ -378,7 +378,7 @@ class _Line:
         yield _Line(
             text=node.close_brace,
             whitespace=whitespace,
-            suffix="," if (tuple_of_one and not self.is_root) else node.separator,
+            suffix=self.suffix,
         )
 
     def __str__(self) -> str:
